@@ -214,4 +214,48 @@ Section Descriptions.
     (forall a, psi (phi a) = a) ->
     matches D (fun a => pos (psi a)) (fun a => num (psi a)) g (phi i) (phi j) <-> matches D pos num g i j.
   Proof. intros Hinv. unfold matches. rewrite !Hinv. reflexivity. Qed.
+  (** re-describing the lattice by a unimodular basis change: numerators p -> A p, operation (r, s) -> (A r B, A s),
+      B the integer inverse of A; the permutation is unchanged *)
+  Definition conj_op (A B : mat) (g : op) : op := (mulmm (mulmm A (fst g)) B, mulmv A (snd g)).
+
+  Lemma mulmv_mulmm A B p : mulmv (mulmm A B) p = mulmv A (mulmv B p).
+  Proof.
+    destruct A as [[[[a b] c] [[d e] f]] [[g0 h0] i0]]. destruct B as [[[[a' b'] c'] [[d' e'] f']] [[g' h'] i']].
+    destruct p as [[p1 p2] p3]. unfold mulmv, mulmm, dotv, col. f_equal; [f_equal|]; ring.
+  Qed.
+
+  Lemma mulmv_addv A p q : mulmv A (addv p q) = addv (mulmv A p) (mulmv A q).
+  Proof.
+    destruct A as [[[[a b] c] [[d e] f]] [[g0 h0] i0]]. destruct p as [[p1 p2] p3], q as [[q1 q2] q3].
+    unfold mulmv, addv, dotv. f_equal; [f_equal|]; ring.
+  Qed.
+
+  Lemma modv_mulmv A p : modv D (mulmv A (modv D p)) = modv D (mulmv A p).
+  Proof.
+    destruct A as [[r1 r2] r3]. unfold mulmv.
+    change (modv D (dotv r1 (modv D p), dotv r2 (modv D p), dotv r3 (modv D p)))
+      with (dotv r1 (modv D p) mod D, dotv r2 (modv D p) mod D, dotv r3 (modv D p) mod D).
+    change (modv D (dotv r1 p, dotv r2 p, dotv r3 p)) with (dotv r1 p mod D, dotv r2 p mod D, dotv r3 p mod D).
+    pose proof (dotv_mod D D_pos r1 p 0) as H1. pose proof (dotv_mod D D_pos r2 p 0) as H2. pose proof (dotv_mod D D_pos r3 p 0) as H3.
+    rewrite !Z.add_0_r in H1, H2, H3. rewrite H1, H2, H3. reflexivity.
+  Qed.
+
+  Lemma modv_mulmv_congr A a b : modv D a = modv D b -> modv D (mulmv A a) = modv D (mulmv A b).
+  Proof. intros H. rewrite <- (modv_mulmv A a), H, modv_mulmv. reflexivity. Qed.
+
+  Lemma image_conj A B g p : mulmm B A = ident ->
+    image D (conj_op A B g) (mulmv A p) = modv D (mulmv A (addv (mulmv (fst g) p) (snd g))).
+  Proof.
+    intros HBA. unfold image, conj_op. cbn [fst snd].
+    rewrite !mulmv_mulmm. rewrite <- (mulmv_mulmm B A), HBA, mulmv_ident. rewrite mulmv_addv. reflexivity.
+  Qed.
+
+  Theorem matches_invariant_under_unimodular A B g i j : mulmm B A = ident ->
+    matches D (fun a => mulmv A (pos a)) num (conj_op A B g) i j <-> matches D pos num g i j.
+  Proof.
+    intros HBA. unfold matches. rewrite (image_conj A B g (pos i) HBA). unfold image.
+    split; intros [H Hn]; split; try exact Hn.
+    - apply (modv_mulmv_congr B) in H. rewrite <- !mulmv_mulmm, HBA, !mulmv_ident in H. exact H.
+    - apply modv_mulmv_congr. exact H.
+  Qed.
 End Descriptions.
